@@ -61,6 +61,9 @@ PROPS = {}
 PROPS["C09"] = {
     "configs": BOTH,
     "rules": [
+        # builder-made models honour the shape contract the rest relies on: a basis function or derivative whose output has the
+        # wrong length (too short OR too long) is reported as an error, never copied into a column (where nalgebra would panic)
+        ("R-CHECKED-CALLS", rm.rule_checked_calls, {"configs": ("default",)}),
         ("R-ERR-DISCIPLINE", rules_err.rule_err_discipline, {}),
         ("R-JAC-ABSENT", rules_err.rule_jac_absent, {}),
         ("R-STATS-ERR-MAP", rules_stats.rule_stats_err_map, {}),
@@ -103,6 +106,9 @@ PROPS["C12"] = {
 PROPS["C08"] = {
     "configs": BOTH,
     "rules": [
+        # builder-made models honour the shape contract the rest relies on: a basis function or derivative whose output has the
+        # wrong length (too short OR too long) is reported as an error, never copied into a column (where nalgebra would panic)
+        ("R-CHECKED-CALLS", rm.rule_checked_calls, {"configs": ("default",)}),
         ("R-SVD-FINITE", rules_svd.rule_svd_finite, {}),
     ],
     "explanation": "Every SVD constructor call in local code receives a matrix that was checked all-finite after its last arithmetic "
